@@ -67,9 +67,11 @@ func genC08(rng *rand.Rand, tier string) *sim.Plan {
 						e = cfgExp
 					}
 				}
-				if chance(rng, 0.3) {
-					wl.ContentType = sim.Str("text/will")
-					wl.User = [][2]string{{"a", "b"}}
+				if chance(rng, 0.4) {
+					var o sim.Op
+					o.Payload = wl.Payload
+					randMsgProps(rng, &o)
+					wl.ContentType, wl.User, wl.RespTopic, wl.Corr, wl.PFmt = o.ContentType, o.UserProps, o.RespTopic, o.Corr, o.PFmt
 				}
 				if chance(rng, 0.2) {
 					wl.ExpiryS = sim.U32(uint32(300 + rng.IntN(100)))
@@ -152,6 +154,7 @@ func genC08(rng *rand.Rand, tier string) *sim.Plan {
 		ph4.Advance = sim.Sec(cfgExp + 30 + 1000)
 		p.Phases = append(p.Phases, ph4)
 	}
+	maybeRedis(rng, p, 0.2)
 	return p
 }
 
@@ -372,18 +375,16 @@ func oracleC08(p *sim.Plan, out *sim.Outcome) []sim.Violation {
 				if pk.Retain != wl.Retain {
 					vs = append(vs, viol("C08", "content", "retain", "will %q delivered to a Retain-As-Published subscription with RETAIN=%v, registered retain=%v", wl.Payload, pk.Retain, wl.Retain))
 				}
-				if v5 && pk.Props != nil {
-					if wl.ContentType != nil && (pk.Props.ContentType == nil || *pk.Props.ContentType != *wl.ContentType) {
-						vs = append(vs, viol("C08", "content", "content-type", "will %q lost its content type property", wl.Payload))
+				if v5 {
+					wop := sim.Op{ContentType: wl.ContentType, UserProps: wl.User, RespTopic: wl.RespTopic, Corr: wl.Corr, PFmt: wl.PFmt}
+					if d := msgPropsMismatch(&wop, true, pk); d != "" {
+						vs = append(vs, viol("C08", "content", "properties", "will %q delivered with %s", wl.Payload, d))
 					}
-					if len(wl.User) != len(pk.Props.User) {
-						vs = append(vs, viol("C08", "content", "user-props", "will %q: user properties %v, registered %v", wl.Payload, pk.Props.User, wl.User))
+					if wl.ExpiryS != nil && (pk.Props == nil || pk.Props.MessageExpiry == nil) {
+						vs = append(vs, viol("C08", "content", "message-expiry", "will %q lost its message expiry interval", wl.Payload))
 					}
-					if wl.ExpiryS != nil {
-						if pk.Props.MessageExpiry == nil {
-							vs = append(vs, viol("C08", "content", "message-expiry", "will %q lost its message expiry interval", wl.Payload))
-						}
-					}
+				} else if pk.Props != nil && (pk.Props.ContentType != nil || len(pk.Props.User) > 0 || pk.Props.ResponseTopic != nil || len(pk.Props.CorrelationData) > 0) {
+					vs = append(vs, viol("C08", "content", "properties", "will %q of an MQTT 3 client delivered with properties nobody registered: %s", wl.Payload, pk))
 				}
 				// then-matching subscribers: the second watcher, if it subscribed well before
 				if w2subT >= 0 && w2subT < a.t-slack && len(arr2[wl.Payload]) == 0 {
